@@ -303,6 +303,9 @@ func genBase(r *gen.Rand) []labels.Label {
 
 func genSrc(r *gen.Rand) []string {
 	n := r.Intn(4)
+	if r.Chance(1, 10) { // around the 16-slot stack array of relabel()
+		n = []int{15, 16, 17, 18, 20, 40}[r.Intn(6)]
+	}
 	var s []string
 	for i := 0; i < n; i++ {
 		s = append(s, gen.Pick(r, namePool))
@@ -404,6 +407,9 @@ func main() {
 			cfgs = append(cfgs, cfg)
 			rng := rangeOf(lb)
 			meta.Hit("action-" + rs.Action)
+			if len(rs.Src) > 16 {
+				meta.Hit("source-labels-over-16")
+			}
 			var obs string
 			switch {
 			case panicked:
@@ -501,6 +507,55 @@ func main() {
 		with(def("keepequal"), func(r *ruleSpec) { r.DefaultRe, r.Src, r.Target = true, []string{"h"}, "h" })}, "del-then-set")
 	emit(L("a", "x"), []ruleSpec{with(def("hashmod"), func(r *ruleSpec) { r.Src, r.Target = []string{"a"}, "h" })}, "modulus-zero")
 	emit(nil, nil, "empty")
+
+	// ---- many source labels: relabel() collects the values in a 16-slot stack array and falls back
+	// to the heap above 16; every action that consumes the concatenation, at 0,1,15,16,17,18,20,40
+	// source labels (absent ones among them), with the separators ";", "", "-", multi-byte.
+	{
+		cyc := []string{"a", "nope1", "b", "c", "nope2", "job", "a"}
+		mbase := map[string]string{"a": "x1", "b": "y", "c": "Foo", "job": "J"}
+		seps := []string{";", "", "-", "é·", ";;"}
+		k := 0
+		for _, cnt := range []int{0, 1, 15, 16, 17, 18, 20, 40} {
+			src := make([]string, cnt)
+			vals := make([]string, cnt)
+			for i := range src {
+				src[i] = cyc[i%len(cyc)]
+				vals[i] = mbase[src[i]]
+			}
+			for _, act := range []string{"keep", "drop", "replace", "hashmod", "lowercase", "uppercase", "keepequal", "dropequal"} {
+				sep := seps[k%len(seps)]
+				k++
+				rs := def(act)
+				rs.Src, rs.Sep = src, sep
+				bl := []string{"a", "x1", "b", "y", "c", "Foo", "job", "J"}
+				switch act {
+				case "keep", "drop":
+					rs.Regex = "x1.*|" // the correct concatenation starts with a's value (or is empty)
+				case "replace":
+					rs.Target, rs.Repl = "t", "<$1>"
+				case "hashmod":
+					rs.Target, rs.Modulus = "t", 1000003
+				case "lowercase", "uppercase":
+					rs.Target = "t"
+				case "keepequal", "dropequal":
+					rs.Sep, rs.DefaultRe, rs.Target = ";", true, "t"
+					bl = append(bl, "t", strings.Join(vals, ";"))
+				}
+				cfg, err := rs.config()
+				if err != nil {
+					panic(err)
+				}
+				if err := cfg.Validate(rs.scheme()); err != nil {
+					panic(fmt.Sprintf("many-sources corpus rule invalid: %v", err))
+				}
+				meta.Hit(fmt.Sprintf("source-labels-%d", cnt))
+				// follow with a rule that makes the label set depend on the outcome of keep/drop too
+				emit(L(bl...), []ruleSpec{rs, with(def("uppercase"), func(r *ruleSpec) { r.Src, r.Target = []string{"t"}, "u" })},
+					fmt.Sprintf("many-sources-%d-%s", cnt, act))
+			}
+		}
+	}
 
 	// ---- seeded random chains
 	n := f.Count(350, 6000)
